@@ -79,7 +79,25 @@ def one(ctx, a, common, use_counts, mk, reqs, pend, force_no_model=False):
     counts = None
     if use_counts:
         v, c = np.unique(a.reshape(-1), return_counts=True)
-        counts = dict(zip([int(x) for x in v.tolist()], [int(x) for x in c.tolist()]))
+        pairs = list(zip([int(x) for x in v.tolist()], [int(x) for x in c.tolist()]))
+        # a caller's counts come in the caller's key order: ascending (numpy.unique), first appearance (Counter),
+        # most frequent first (Counter.most_common), descending, or any other
+        order = ctx.rng.choice(["ascending", "ascending", "first-appearance", "most-common", "descending", "shuffled"])
+        if order == "first-appearance":
+            seen = []
+            for x in a.reshape(-1).tolist():
+                if int(x) not in seen:
+                    seen.append(int(x))
+            d0 = dict(pairs)
+            pairs = [(k, d0[k]) for k in seen]
+        elif order == "most-common":
+            pairs.sort(key=lambda kv: -kv[1])
+        elif order == "descending":
+            pairs.reverse()
+        elif order == "shuffled":
+            ctx.rng.shuffle(pairs)
+        ctx.hit("counts_order:" + order)
+        counts = dict(pairs)
     if a.size == 0 and common is None and not mapping:
         return
     desc = {"array": a.tolist() if a.size <= 40 else {"shape": list(a.shape), "distinct": sorted(set(a.reshape(-1).tolist()))[:8]},
